@@ -360,6 +360,9 @@ pub struct JaxNoise {
     /// order of the tags inside a [Term] stanza (OBO recommends an order, it does not require one): 0 `id` first
     /// in every stanza; otherwise, varying from stanza to stanza, `id` after `name`, `id` last, all lines reversed
     pub tag_order: u8,
+    /// terms with two or more is_a lines are written as two [Term] stanzas of the same id and name, each with a part
+    /// of the lines (the first stanza carries the flags; a repeated stanza adds its links to the term)
+    pub split_stanzas: bool,
 }
 
 const TAG_POOL: [&str; 8] = [
@@ -453,7 +456,25 @@ pub fn render_jax(f: &Facts, noise: &JaxNoise) -> JaxFiles {
         if let Some(r) = t.replacement {
             obo.push_str(&format!("replaced_by: {}\n", hp(r)));
         }
-        if noise.tag_order != 0 {
+        if noise.split_stanzas && f.edges.iter().filter(|(c, _)| *c == t.id).count() >= 2 && pos % 2 == 0 {
+            // move the second half of the is_a lines (with whatever stands between them) into a second stanza
+            let lines: Vec<String> = obo[stanza_start..].lines().map(str::to_string).collect();
+            let isa: Vec<usize> = (0..lines.len()).filter(|i| lines[*i].starts_with("is_a: ")).collect();
+            let cut = isa[isa.len() / 2];
+            let last = isa[isa.len() - 1];
+            obo.truncate(stanza_start);
+            for (i, l) in lines.iter().enumerate() {
+                if i < cut || i > last {
+                    obo.push_str(l);
+                    obo.push('\n');
+                }
+            }
+            obo.push_str(&format!("\n[Term]\nid: {}\nname: {}\n", hp(t.id), t.name));
+            for l in &lines[cut..=last] {
+                obo.push_str(l);
+                obo.push('\n');
+            }
+        } else if noise.tag_order != 0 {
             let mut lines: Vec<String> = obo[stanza_start..].lines().map(str::to_string).collect();
             match (noise.tag_order as usize + pos) % 4 {
                 1 => {
